@@ -403,8 +403,11 @@ impl Encoder {
                     }
                 });
 
+                // The cast must be parenthesized when the value is shifted:
+                // `x as u16 << 4` does not parse.
+                let value = quote!((#array_size) as #field_type);
                 self.bit_fields.push(BitField {
-                    value: quote!((#array_size) as #field_type),
+                    value: if shift > 0 { quote!((#value)) } else { value },
                     field_type,
                     shift,
                 });
@@ -464,8 +467,11 @@ impl Encoder {
                         }
                     });
                 }
+                // The cast must be parenthesized when the value is shifted:
+                // `x as u16 << 4` does not parse.
+                let value = quote!(self.#field_name.len() as #field_type);
                 self.bit_fields.push(BitField {
-                    value: quote!(self.#field_name.len() as #field_type),
+                    value: if shift > 0 { quote!((#value)) } else { value },
                     field_type,
                     shift,
                 });
